@@ -835,7 +835,7 @@ def gen_garbage(rng):
 
 
 def gen_history(rng, nrev, nobj=(3, 8), maxnum=12, kinds=('table', 'stream', 'hybrid'), objstm=0.5, lenref=0.4,
-                free_modes=('same', 'same', 'incr'), gens=True, streams=0.3, holder_in_stm=0.0, xid_reuse=0.0,
+                free_modes=('same', 'same', 'incr', 'incr', 'any'), gens=True, streams=0.3, holder_in_stm=0.0, xid_reuse=0.0,
                 opts=None, pfree=0.35):
     """a history of nrev revisions over object numbers 1..maxnum; bookkeeping objects use numbers >= maxnum+8."""
     bk = [maxnum + 8]
@@ -858,10 +858,18 @@ def gen_history(rng, nrev, nobj=(3, 8), maxnum=12, kinds=('table', 'stream', 'hy
         for num in nums:
             if num in cur and i > 0 and rng.random() < pfree:
                 g = cur[num]
-                gw = g if rng.choice(free_modes) == 'same' else g + 1
+                mode = rng.choice(free_modes)
+                if mode == 'same':
+                    gw = g
+                elif mode == 'incr':
+                    gw = g + 1
+                else:                       # any other generation is a legal spelling of a free entry too
+                    gw = rng.choice([65535, 65535, 1, 2, 65534])
                 ops.append(Free(num, gw))
                 del cur[num]
                 lastgen[num] = gw
+                if gw >= 65535:
+                    reserved.add(num)       # deleted and never reusable
                 continue
             if num in cur:
                 g = cur[num] + (1 if (gens and rng.random() < 0.1) else 0)
@@ -888,6 +896,15 @@ def gen_history(rng, nrev, nobj=(3, 8), maxnum=12, kinds=('table', 'stream', 'hy
             ops.append(Def(num, g, val, place, lenmode))
             cur[num] = g
             lastgen[num] = g
+        if i == 0 and rng.random() < 0.5:
+            # free entries for numbers the document does not use, in assorted generations
+            unused = [x for x in pool if x not in nums and x not in used_low]
+            for num in rng.sample(unused, min(len(unused), rng.randrange(1, 3))):
+                gw = rng.choice([0, 1, 2, 65534, 65535, 65535])
+                ops.append(Free(num, gw))
+                lastgen[num] = gw
+                if gw >= 65535:
+                    reserved.add(num)
         for k in range(nstm):
             if any(isinstance(op, Def) and op.place == ('stm', k) for op in ops):
                 c = Def(fresh(), 0, k, kind='objstm')
